@@ -1,6 +1,7 @@
 import ApolloModel.Model.Proto
 import ApolloModel.Model.ExecValidation
 import ApolloModel.Model.ExecValidationCache
+import ApolloModel.Model.ExecRules
 import ApolloModel.Spec.ExecValidation
 open Apollo Apollo.Proto Apollo.ExecVal
 namespace Driver
@@ -117,6 +118,243 @@ def c17AFieldsAll (s : String) : Option (List AField) :=
 
 def c17NatList (s : String) : List Nat := (s.splitOn ",").filterMap String.toNat?
 
+/-! ### family streams `c17.ops` / `c17.frags` / `c17.fields` / `c17.args` / `c17.vars` -/
+namespace Fam
+open Apollo.ExecRules
+
+abbrev Toks := List String
+
+def many {α : Type} (one : Toks → Option (α × Toks)) : Nat → Toks → Option (List α × Toks)
+  | 0, ts => some ([], ts)
+  | k + 1, ts => do
+    let (x, r) ← one ts
+    let (xs, r2) ← many one k r
+    pure (x :: xs, r2)
+
+def counted {α : Type} (one : Toks → Option (α × Toks)) : Toks → Option (List α × Toks)
+  | c :: r => do
+    let n ← c.toNat?
+    many one n r
+  | [] => none
+
+def name1 : Toks → Option (String × Toks)
+  | t :: r => some (t, r)
+  | [] => none
+
+def optName : Toks → Option (Option String × Toks)
+  | "-" :: r => some (none, r)
+  | t :: r => some (some t, r)
+  | [] => none
+
+def decTy : Nat → Toks → Option (Ty × Toks)
+  | 0, _ => none
+  | fuel + 1, ts =>
+    match ts with
+    | [] => none
+    | t :: rest =>
+      if t == "l" then (decTy fuel rest).map fun (x, r) => (.list x, r)
+      else if t == "L" then (decTy fuel rest).map fun (x, r) => (.nonNullList x, r)
+      else match t.toList with
+        | 'n' :: nm => some (.named (String.ofList nm), rest)
+        | 'N' :: nm => some (.nonNullNamed (String.ofList nm), rest)
+        | _ => none
+
+def inDef (ts : Toks) : Option (InDef × Toks) := do
+  let (n, r) ← name1 ts
+  let (ty, r) ← decTy 64 r
+  match r with
+  | "1" :: r => pure ({ name := n, ty := ty, hasDefault := true }, r)
+  | "0" :: r => pure ({ name := n, ty := ty, hasDefault := false }, r)
+  | _ => none
+
+def fieldDef (ts : Toks) : Option ((String × RFieldDef) × Toks) := do
+  let (n, r) ← name1 ts
+  let (args, r) ← counted inDef r
+  let (ty, r) ← decTy 64 r
+  pure ((n, { args := args, ty := ty }), r)
+
+def typeInfo (ts : Toks) : Option (TypeInfo × Toks) := do
+  let (n, r) ← name1 ts
+  match r with
+  | "s1" :: r => pure ({ name := n, kind := .scalar true, fields := [] }, r)
+  | "s0" :: r => pure ({ name := n, kind := .scalar false, fields := [] }, r)
+  | "e" :: r => pure ({ name := n, kind := .enum, fields := [] }, r)
+  | "i" :: r => do
+    let (fs, r) ← counted inDef r
+    pure ({ name := n, kind := .inputObject fs, fields := [] }, r)
+  | "o" :: r => do
+    let (is, r) ← counted name1 r
+    let (fs, r) ← counted fieldDef r
+    pure ({ name := n, kind := .object is, fields := fs }, r)
+  | "f" :: r => do
+    let (is, r) ← counted name1 r
+    let (fs, r) ← counted fieldDef r
+    pure ({ name := n, kind := .interface is, fields := fs }, r)
+  | "u" :: r => do
+    let (ms, r) ← counted name1 r
+    pure ({ name := n, kind := .union ms, fields := [] }, r)
+  | _ => none
+
+def locOf (t : String) : Standalone.Loc :=
+  if t == "q" then .query else if t == "m" then .mutation else if t == "s" then .subscription else if t == "f" then .field
+  else if t == "g" then .fragmentDefinition else if t == "p" then .fragmentSpread else if t == "i" then .inlineFragment
+  else if t == "v" then .variableDefinition else .typeSystem ((String.ofList (t.toList.drop 1)).toNat?.getD 0)
+
+def dirDef (ts : Toks) : Option (RDirDef × Toks) := do
+  let (n, r) ← name1 ts
+  let (rep, r) ← (match r with | "1" :: r => some (true, r) | "0" :: r => some (false, r) | _ => none)
+  let (locs, r) ← counted name1 r
+  let (args, r) ← counted inDef r
+  pure ({ name := n, repeatable := rep, locs := locs.map locOf, args := args }, r)
+
+def schema (ts : Toks) : Option RSchema := do
+  let (q, r) ← optName ts
+  let (m, r) ← optName r
+  let (sub, r) ← optName r
+  let (types, r) ← counted typeInfo r
+  let (dirs, r) ← counted dirDef r
+  if r.isEmpty then pure { types := types, query := q, mutation := m, subscription := sub, dirs := dirs } else none
+
+mutual
+def rval : Nat → Toks → Option (RVal × Toks)
+  | 0, _ => none
+  | fuel + 1, ts =>
+    match ts with
+    | [] => none
+    | t :: rest =>
+      match t.toList with
+      | ['z'] => some (.null, rest)
+      | ['x'] => some (.lit, rest)
+      | 'v' :: nm => some (.var (String.ofList nm), rest)
+      | 'a' :: ds => do
+        let n ← (String.ofList ds).toNat?
+        let (xs, r) ← rvals fuel n rest
+        pure (.list xs, r)
+      | 'o' :: ds => do
+        let n ← (String.ofList ds).toNat?
+        let (kvs, r) ← rfields fuel n rest
+        pure (.obj kvs, r)
+      | _ => none
+def rvals : Nat → Nat → Toks → Option (List RVal × Toks)
+  | 0, _, _ => none
+  | _ + 1, 0, ts => some ([], ts)
+  | fuel + 1, k + 1, ts => do
+    let (x, r) ← rval fuel ts
+    let (xs, r2) ← rvals fuel k r
+    pure (x :: xs, r2)
+def rfields : Nat → Nat → Toks → Option (List (String × RVal) × Toks)
+  | 0, _, _ => none
+  | _ + 1, 0, ts => some ([], ts)
+  | fuel + 1, k + 1, ts =>
+    match ts with
+    | [] => none
+    | key :: rest => do
+      let (x, r) ← rval fuel rest
+      let (xs, r2) ← rfields fuel k r
+      pure ((String.ofList (key.toList.drop 1), x) :: xs, r2)
+end
+
+def rarg (fuel : Nat) (ts : Toks) : Option (RArg × Toks) := do
+  let (n, r) ← name1 ts
+  let (v, r) ← rval fuel r
+  pure ({ name := n, value := v }, r)
+
+def rdir (fuel : Nat) (ts : Toks) : Option (RDir × Toks) := do
+  let (n, r) ← name1 ts
+  let (args, r) ← counted (rarg fuel) r
+  pure ({ name := n, args := args }, r)
+
+def rsels : Nat → Toks → Option (RSels × Toks)
+  | 0, _ => none
+  | fuel + 1, ts =>
+    match ts with
+    | "." :: r => some (.nil, r)
+    | "F" :: r => do
+      let (n, r) ← name1 r
+      let (ds, r) ← counted (rdir fuel) r
+      let (as, r) ← counted (rarg fuel) r
+      let (sub, r) ← rsels fuel r
+      let (rest, r) ← rsels fuel r
+      pure (.field n ds as sub rest, r)
+    | "P" :: r => do
+      let (n, r) ← name1 r
+      let (ds, r) ← counted (rdir fuel) r
+      let (rest, r) ← rsels fuel r
+      pure (.spread n ds rest, r)
+    | "I" :: r => do
+      let (tc, r) ← optName r
+      let (ds, r) ← counted (rdir fuel) r
+      let (sub, r) ← rsels fuel r
+      let (rest, r) ← rsels fuel r
+      pure (.inline tc ds sub rest, r)
+    | _ => none
+
+def varDef (fuel : Nat) (ts : Toks) : Option (RVarDef × Toks) := do
+  let (n, r) ← name1 ts
+  let (ty, r) ← decTy 64 r
+  let (d, r) ← (match r with
+    | "a" :: r => some (Spec.DefaultValue.absent, r)
+    | "n" :: r => some (Spec.DefaultValue.null, r)
+    | "v" :: r => some (Spec.DefaultValue.nonNullValue, r)
+    | _ => none)
+  let (ds, r) ← counted (rdir fuel) r
+  pure ({ name := n, ty := ty, default := d, dirs := ds }, r)
+
+def rdefs : Nat → Toks → Option RAst
+  | 0, _ => none
+  | _ + 1, [] => some []
+  | fuel + 1, "O" :: r => do
+    let (ty, r) ← (match r with
+      | "q" :: r => some (Standalone.OpType.query, r)
+      | "m" :: r => some (Standalone.OpType.mutation, r)
+      | "s" :: r => some (Standalone.OpType.subscription, r)
+      | _ => none)
+    let (nm, r) ← optName r
+    let (vars, r) ← counted (varDef fuel) r
+    let (ds, r) ← counted (rdir fuel) r
+    let (sels, r) ← rsels fuel r
+    let rest ← rdefs fuel r
+    pure (.op { ty := ty, name := nm, vars := vars, dirs := ds, sels := sels } :: rest)
+  | fuel + 1, "G" :: r => do
+    let (n, r) ← name1 r
+    let (tc, r) ← name1 r
+    let (ds, r) ← counted (rdir fuel) r
+    let (sels, r) ← rsels fuel r
+    let rest ← rdefs fuel r
+    pure (.frag { name := n, tc := tc, dirs := ds, sels := sels } :: rest)
+  | fuel + 1, "X" :: r => do
+    let rest ← rdefs fuel r
+    pure (.typeSystem :: rest)
+  | _ + 1, _ => none
+
+/-- every name of the schema and of the document, after the reserved ones -/
+def nameTable (st dt : Toks) : List String := (reservedNames ++ st ++ dt).eraseDups
+
+def families : List (String × List String) :=
+  [("c17.ops", ["AmbiguousAnonymousOperation", "OperationNameCollision", "UndefinedRootOperation", "TypeSystemDefinition"]),
+   ("c17.frags", ["FragmentNameCollision", "UndefinedTypeInNamedFragmentTypeCondition", "UndefinedTypeInInlineFragmentTypeCondition",
+      "InvalidFragmentTarget", "UndefinedFragment", "RecursiveFragmentDefinition", "UnusedFragment", "InvalidFragmentSpread"]),
+   ("c17.fields", ["UndefinedField", "SubselectionOnLeaf", "MissingSubselection"]),
+   ("c17.args", ["UniqueArgument", "UndefinedArgument", "RequiredArgument"]),
+   ("c17.vars", ["UniqueVariable", "VariableInputType", "UndefinedDefinition", "UnusedVariable", "UndefinedVariable", "DisallowedVariableUsage"])]
+
+def run (stream schemaField docField : String) : String :=
+  let st := ((String.ofList (decodeField schemaField)).splitOn " ").filter (· ≠ "")
+  let dt := ((String.ofList (decodeField docField)).splitOn " ").filter (· ≠ "")
+  match schema st, rdefs (dt.length + 2) dt with
+  | some s, some ast =>
+    let tbl := nameTable (st.map fun t => t) (dt.flatMap fun t => [t, String.ofList (t.toList.drop 1)])
+    let structural := (Standalone.validate (Standalone.currentParams fun _ => []) (some (viewOf tbl s)) (erase tbl ast)).map Standalone.Diag.name
+    let typed := (typedDiags s ast).map TDiag.kindName
+    match families.find? (·.1 == stream) with
+    | some (_, ks) =>
+      let mine := ((structural ++ typed).filter ks.contains).mergeSort (fun a b => decide (a ≤ b))
+      if mine.isEmpty then "ok" else ",".intercalate mine
+    | none => "unknown-stream"
+  | _, _ => "bad-case"
+
+end Fam
+
 /-- streams of property C17 are named `c17.<name>` -/
 def c17 (stream : String) (fs : List String) : String :=
   match stream, fs with
@@ -144,6 +382,11 @@ def c17 (stream : String) (fs : List String) : String :=
     match c17AFieldsAll (String.ofList (decodeField fs)) with
     | some fs => if xingCachedDoc AField.beqList 128 [fs] then "ok" else "conflict"
     | none => "bad-case"
+  | "c17.ops", [sc, d] => Fam.run "c17.ops" sc d
+  | "c17.frags", [sc, d] => Fam.run "c17.frags" sc d
+  | "c17.fields", [sc, d] => Fam.run "c17.fields" sc d
+  | "c17.args", [sc, d] => Fam.run "c17.args" sc d
+  | "c17.vars", [sc, d] => Fam.run "c17.vars" sc d
   | "c17.mergespec", [fs] =>
     match c17AFieldsAll (String.ofList (decodeField fs)) with
     | some fs => if Apollo.Spec.ExecVal.documentFieldsCanMerge 128 fs then "ok" else "conflict"
